@@ -2,6 +2,8 @@ package sim
 
 import (
 	"fmt"
+	"os"
+	"time"
 
 	hg "github.com/mosaicnetworks/babble/src/hashgraph"
 
@@ -111,6 +113,9 @@ func (c *Cluster) fairSuffix(spec *runSpec) {
 	}
 	bound := c.fairBound()
 	for i := 0; i < bound; i++ {
+		if debugTrace {
+			fmt.Fprintf(os.Stderr, "fair cycle %d/%d abort=%v real=%v\n", i, bound, abortRun.Load(), time.Since(c.realStart))
+		}
 		c.exec(&Step{Op: "fair"})
 		if c.stopNow(spec) {
 			return
